@@ -302,6 +302,18 @@ func c20positive(c *evid.Ctx, r *gen.Rand, run int) {
 			n.S.Query(context.Background(), dht.NewAddr(dest), "ping", dht.QueryInput{NumTries: 2})
 		}(alloc.V4())
 	}
+	// queries that give up while they wait for budget (their reservation must be handed back, and
+	// nothing more than that)
+	for i := 0; i < 60; i++ {
+		wg.Add(1)
+		d := time.Duration(r.Intn(15000)) * time.Microsecond
+		go func(dest *net.UDPAddr) {
+			defer wg.Done()
+			ctx, cancel := context.WithTimeout(context.Background(), d)
+			defer cancel()
+			n.S.Query(ctx, dht.NewAddr(dest), "ping", dht.QueryInput{NumTries: 1, RateLimiting: dht.QueryRateLimiting{WaitOnRetries: true}})
+		}(alloc.V4())
+	}
 	for i := 0; i < 400; i++ {
 		n.Conn.Inject(srv.Query("ping", "f", benc.Dict{"id": r.ID()}), alloc.V4())
 		if i%50 == 0 {
@@ -332,7 +344,7 @@ func c20positive(c *evid.Ctx, r *gen.Rand, run int) {
 			break
 		}
 	}
-	if len(caps) < 400+20 {
-		c.Count("sends denied for lack of budget", 420-len(caps))
+	if len(caps) < 400+20+60 {
+		c.Count("sends denied for lack of budget", 480-len(caps))
 	}
 }
